@@ -63,6 +63,9 @@ type world struct {
 	cacheObjs  int64 // objects fingerprinted by M-CACHE
 	syncs      int64
 	noMonitors bool
+	// overlapView: syncs of several parents overlap (M-VIEW's equality is not defined then); the
+	// one-sided rule still is: no object shown to a hook is, at that moment, controlled by another
+	overlapView bool
 	// ownSig lets a scenario that manipulates ownership itself refine the signature of an M-OWN
 	// finding (e.g. to mark the known stale-observation shape).
 	ownSig func(f sim.Finding) string
@@ -151,6 +154,8 @@ func newWorld(cfg worldCfg) *world {
 	w.hooks.SetObserver(func(call *sim.HookCall) {
 		if !w.noMonitors && !w.noViewMonitor {
 			w.observeHookCall(call)
+		} else if w.overlapView {
+			w.observeHookCallOverlapping(call)
 		}
 	})
 	w.cc = cfg.compositeController(w.hooks)
